@@ -6,6 +6,9 @@ from . import ambient
 from . import reflex
 
 
+FILLED_IN_TWO_STEPS = [0]
+
+
 def token_class(t):
     """Adjacency class of a significant reference token."""
     if t.kind in ('symbol', 'keyword'):
@@ -22,7 +25,25 @@ def token_class(t):
 def minify_lib(src, config, keep_file=None):
     """Library path: Lua.to_lines(writer_cls=LuaMinifyTokenWriter, writer_args=...) -> output bytes."""
     from pico8.lua import lua
-    L = lua.Lua.from_lines([src], version=ambient.VERSION[0])
+    two_steps = config.endswith('+two_steps')
+    if two_steps:
+        config = config[:-len('+two_steps')]
+    L = None
+    if two_steps:
+        # the object is filled in two calls (a header stamped in first, the code added afterwards), cut at the first line end at which
+        # the reference lexer is between tokens
+        starts = {t.off for t in reflex.lex(src)}
+        cut = next((i + 1 for i in range(len(src) - 1) if src[i] == 10 and (i + 1) in starts), None)
+        if cut is not None:
+            try:
+                L = lua.Lua.from_lines([src[:cut]], version=ambient.VERSION[0])
+                L.update_from_lines([src[cut:]])
+            except Exception:
+                L = None       # (the first part alone is not a program: not this history's subject)
+    if L is None:
+        L = lua.Lua.from_lines([src], version=ambient.VERSION[0])
+    elif two_steps:
+        FILLED_IN_TWO_STEPS[0] += 1
     args = {}
     if config.startswith('keep_all'):
         args['keep_all_names'] = True
